@@ -2,7 +2,7 @@
    list, prod, sumbool, sumor -> the OCaml types); numbers stay the extracted inductives.
    No Extract Constant / Extract Inductive of our own. *)
 From Coq Require Import Extraction ExtrOcamlBasic.
-From KP Require Import Bytes Utf8 Nav Tree History Merge Version ReadScript WriteScript Base32 Otp OtpInst Kdbx4 Key Kdbx3 Kdb XmlTypes XmlDump XmlParse XmlSpec.
+From KP Require Import Bytes Utf8 Nav Tree History Merge Version ReadScript WriteScript Base32 Otp OtpInst Kdbx4 Key Kdbx3 Kdb XmlTypes XmlDump XmlParse XmlSpec XmlText.
 Extraction Language OCaml.
 Set Extraction KeepSingleton.
 Separate Extraction
@@ -15,5 +15,5 @@ Separate Extraction
   Kdbx4.decrypt4 Kdbx4.dump4 Kdbx4.draw_sizes Kdbx4.vd_of_kdf Kdbx4.draws_ok
   Key.key_elements Key.composite_kdb Key.composite_kdbx
   Kdbx3.decrypt3 Kdbx3.frame3 Kdb.kdb_open Kdb.parse_db Kdb.payload_enc
-  XmlDump.dump_content XmlDump.dump_fails XmlParse.parse_events XmlSpec.wf_content XmlSpec.protected_values_in_order
+  XmlDump.dump_content XmlDump.dump_fails XmlParse.parse_events XmlSpec.wf_content XmlSpec.protected_values_in_order XmlText.lex_xml XmlText.render_xml
   WriteScript.save_to_sink WriteScript.fresh_sink WriteScript.save_raw.
